@@ -89,7 +89,8 @@ func debugGetLocal(L *LState) int {
 }
 
 func debugGetMetatable(L *LState) int {
-	L.Push(L.GetMetatable(L.CheckAny(1)))
+	// the metatable itself: __metatable protects against getmetatable only
+	L.Push(L.metatable(L.CheckAny(1), true))
 	return 1
 }
 
